@@ -815,7 +815,9 @@ func storeOptsStores(cfg Config, rep *Report, m *Model, rng *rand.Rand) {
 		for k := rng.Intn(4); k > 0; k-- {
 			var p string
 			trimmed := strings.TrimSuffix(loc, "/")
-			switch rng.Intn(8) {
+			switch rng.Intn(9) {
+			case 8: // the entry of the PARENT directory: another location
+				p = filepath.Dir(trimmed) + soPick(rng, "", "/")
 			case 0:
 				p = trimmed
 			case 1:
